@@ -68,7 +68,8 @@ func KeyWrap(block cipher.Block, cek []byte) ([]byte, error) {
 
 // KeyUnwrap implements NIST key unwrapping; it unwraps a content encryption key (cek) with the given block cipher.
 func KeyUnwrap(block cipher.Block, ciphertext []byte) ([]byte, error) {
-	if len(ciphertext)%8 != 0 {
+	// The ciphertext is the IV and n blocks, at least the IV, or (n = -1) panic.
+	if len(ciphertext) < 8 || len(ciphertext)%8 != 0 {
 		return nil, errors.New("square/go-jose: key wrap input must be 8 byte blocks")
 	}
 
